@@ -112,7 +112,14 @@ fn part_b_case(check: &Check, rng: &mut Rng) {
             inn.codec_mut().encode(KadResponseMsg::GetValue { record: Some(record), closer_peers: vec![] }, &mut wire).map_err(|e| e.to_string())
         }
     });
-    let class = class_of(&life);
+    let after = Instant::now();
+    // Signature class: judged by the remaining lifetime the encoder can have seen, i.e. the nominal
+    // lifetime minus at most (after - before). A nominal 1.001 s record encoded 2 ms late is in the
+    // same failing class as a 999 ms one (keeps signatures independent of scheduling delay).
+    let class = match life {
+        Life::Future(d) if d.as_secs() < u32::MAX as u64 && d.saturating_sub(after - before) <= Duration::from_secs(1) => "up-to-1s",
+        _ => class_of(&life),
+    };
     let kind = if as_request { "PutValue request" } else { "GetValue response" };
     let witness = json!({"message": kind, "lifetime": format!("{life:?}"), "class": class, "wire": vmon::hex(&wire)});
     match r {
